@@ -5,7 +5,8 @@ Monitors (contracts on the real numqi callables, evaluated on every call):
     vmon/ref/channel.py (explicit sum_k K rho K^dagger, Choi/super-operator built index by index from the documented
     conventions, own Gell-Mann basis for the Bloch picture);
   * choi_op_to_bloch_map against A[m,n] = Tr(G_m E(G_n))/2, b[m] = Tr(G_m E(I/d))/2;
-  * hf_*_kraus_op: CPTP for every admissible rate;
+  * hf_*_kraus_op: CPTP for every admissible rate, on every call whatever happened before (history monitor: the result
+    must not alias an earlier result the caller has edited in place since; same monitor on all conversions / apply_*);
   * utils.get_fidelity / get_trace_distance / get_relative_entropy / get_von_neumann_entropy / get_Renyi_entropy against vmon/ref/qinfo.py,
     range and symmetry clauses, and - history/ghost-state monitor - the data-processing inequalities under the channel
     the workload registered last (images are produced by numqi's own apply_kraus_op);
@@ -28,7 +29,7 @@ RULE = ('a case is one channel (Kraus operators from numqi.random or from the re
         'family) pushed through every conversion, applied in all representations to 6 input states (full-rank, numqi '
         'rand_density_matrix, low-rank, pure, maximally mixed, basis/real) and used for the data-processing inequalities on up to 8 '
         'state pairs (generic, low-rank vs full, full vs low-rank, kets, identical, orthogonal kets, nearby, pure vs full); other cases: one (noise channel, rate) '
-        'pair, one state pair / batch for the functionals, one torch channel, one optimiser run, one repository test. '
+        'pair, one (noise channel, rate, equal-valued rate) edit-then-recall history, one state pair / batch for the functionals, one torch channel, one optimiser run, one repository test. '
         'A channel case is non-trivial when dim_in*dim_out > 1 (the 1->1 channel is the scalar identity), a functional '
         'case when d >= 2; distinct by digest of (family, Kraus array) resp. (kind, arrays)')
 EXHAUSTIVE = {'quick': True, 'thorough': True}
@@ -69,7 +70,8 @@ DECIDING = [P_CH + n for n in (
     'utils.get_Renyi_entropy',
     'random.rand_kraus_op', 'random.rand_choi_op', 'gellmann.matrix_to_gellmann_basis', 'gellmann.dm_to_gellmann_basis',
     'equiv/all-representations', 'dpi/trace_distance', 'dpi/fidelity', 'dpi/relative_entropy',
-    'fidelity/symmetric', 'fidelity/range', 'entropy/range', 'noise/cptp']
+    'fidelity/symmetric', 'fidelity/range', 'entropy/range', 'noise/cptp', 'noise/history', 'history/result-aliasing',
+    'history/edit-then-recall']
 
 TOL = 1e-10
 DIMS = (1, 2, 3, 4, 5)
@@ -177,6 +179,33 @@ def install(ctx, numqi, gh):
         if np.isfinite(val) and (name not in margins or val < margins[name]):
             margins[name] = val
 
+    def make_alias_monitor(name, key):
+        """history monitor: the array handed out by this call must not be (share memory with) an array handed out by an
+        earlier call that its caller has edited in place since (a memoised / module-level result buffer). A result that
+        is a view of one of the current arguments is plain numpy view semantics and is not judged."""
+        earlier = []  # (reference to the returned array, snapshot of its value at return time)
+
+        def observe(c, point='history/result-aliasing'):
+            res = c.result
+            parts = [r for r in (res if isinstance(res, tuple) else (res,)) if isinstance(r, np.ndarray) and r.size]
+            if not parts:
+                return
+            arg_arrays = [a for a in list(c.args) + list(c.kwargs.values()) if isinstance(a, np.ndarray)]
+            bad = None
+            for r in parts:
+                if any(np.shares_memory(r, a) for a in arg_arrays):
+                    continue
+                for ref, snap in earlier:
+                    if (ref is r or np.shares_memory(ref, r)) and not (ref.shape == snap.shape and np.array_equal(ref, snap, equal_nan=True)):
+                        bad = {'function': name, 'result_is_same_object': ref is r, 'value_at_earlier_return': snap, 'value_now': r}
+                        break
+            ctx.check(bad is None, key, f'{name}: the returned array is (shares memory with) the array returned by an earlier call, '
+                      'which the caller has edited in place since: the edit leaks into this result', bad, point=point)
+            for r in parts:
+                earlier.append((r, r.copy()))
+            del earlier[:-48]
+        return observe
+
     def cmp(got, ref, tol, key, what, witness=None, point=None):
         g = _np(got)
         r = np.asarray(ref)
@@ -202,7 +231,14 @@ def install(ctx, numqi, gh):
         if _is_torch(c.args[0]):
             ctx.check(_is_torch(c.result), 'kraus_to_choi/torch-type', 'torch input must give a torch result', {'type': repr(type(c.result))})
 
-    ctx.attach(Ch, 'kraus_op_to_choi_op', post=post_kraus_to_choi, point=P_CH + 'kraus_op_to_choi_op')
+    _alias_kraus_op_to_choi_op = make_alias_monitor('kraus_op_to_choi_op', 'kraus_op_to_choi_op/result-aliases-earlier-call')
+
+    def post_kraus_to_choi_h(c, _inner=post_kraus_to_choi, _alias=_alias_kraus_op_to_choi_op):
+        if c.exc is None:
+            _alias(c)
+        _inner(c)
+
+    ctx.attach(Ch, 'kraus_op_to_choi_op', post=post_kraus_to_choi_h, point=P_CH + 'kraus_op_to_choi_op')
 
     def post_kraus_to_super(c):
         if c.exc is not None:
@@ -214,7 +250,14 @@ def install(ctx, numqi, gh):
         cmp(c.result, ref, TOL * _scale(ref), 'kraus_to_super/value',
             'kraus_op_to_super_op differs from S[(a,b),(i,j)] = E(|i><j|)[a,b] (row-major vectorisation)', {'kraus': op})
 
-    ctx.attach(Ch, 'kraus_op_to_super_op', post=post_kraus_to_super, point=P_CH + 'kraus_op_to_super_op')
+    _alias_kraus_op_to_super_op = make_alias_monitor('kraus_op_to_super_op', 'kraus_op_to_super_op/result-aliases-earlier-call')
+
+    def post_kraus_to_super_h(c, _inner=post_kraus_to_super, _alias=_alias_kraus_op_to_super_op):
+        if c.exc is None:
+            _alias(c)
+        _inner(c)
+
+    ctx.attach(Ch, 'kraus_op_to_super_op', post=post_kraus_to_super_h, point=P_CH + 'kraus_op_to_super_op')
 
     def post_choi_to_super(c):
         if c.exc is not None:
@@ -228,7 +271,14 @@ def install(ctx, numqi, gh):
         cmp(c.result, ref, 0.0, 'choi_to_super/value',
             'choi_op_to_super_op is not the index permutation S[(a,b),(i,j)] = C[(i,a),(j,b)]', {'choi': op, 'dim_in': int(din)})
 
-    ctx.attach(Ch, 'choi_op_to_super_op', post=post_choi_to_super, point=P_CH + 'choi_op_to_super_op')
+    _alias_choi_op_to_super_op = make_alias_monitor('choi_op_to_super_op', 'choi_op_to_super_op/result-aliases-earlier-call')
+
+    def post_choi_to_super_h(c, _inner=post_choi_to_super, _alias=_alias_choi_op_to_super_op):
+        if c.exc is None:
+            _alias(c)
+        _inner(c)
+
+    ctx.attach(Ch, 'choi_op_to_super_op', post=post_choi_to_super_h, point=P_CH + 'choi_op_to_super_op')
 
     def _super_dims(op):
         if not (_numeric(op) and op.ndim == 2 and op.size):
@@ -248,7 +298,14 @@ def install(ctx, numqi, gh):
         cmp(c.result, ref, 0.0, 'super_to_choi/value',
             'super_op_to_choi_op is not the index permutation C[(i,a),(j,b)] = S[(a,b),(i,j)]', {'super': op})
 
-    ctx.attach(Ch, 'super_op_to_choi_op', post=post_super_to_choi, point=P_CH + 'super_op_to_choi_op')
+    _alias_super_op_to_choi_op = make_alias_monitor('super_op_to_choi_op', 'super_op_to_choi_op/result-aliases-earlier-call')
+
+    def post_super_to_choi_h(c, _inner=post_super_to_choi, _alias=_alias_super_op_to_choi_op):
+        if c.exc is None:
+            _alias(c)
+        _inner(c)
+
+    ctx.attach(Ch, 'super_op_to_choi_op', post=post_super_to_choi_h, point=P_CH + 'super_op_to_choi_op')
 
     def _kraus_back(res, target, din, dout, zero_eps, key, name, build):
         """`res` must be Kraus operators (r, dout, din) of the completely positive map whose Choi matrix is `target`."""
@@ -283,7 +340,14 @@ def install(ctx, numqi, gh):
         _kraus_back(_np(c.result), op.astype(np.complex128), int(din), op.shape[0] // int(din), float(zero_eps), 'choi_to_kraus',
                     'choi_op_to_kraus_op', rc.choi_from_kraus)
 
-    ctx.attach(Ch, 'choi_op_to_kraus_op', post=post_choi_to_kraus, point=P_CH + 'choi_op_to_kraus_op')
+    _alias_choi_op_to_kraus_op = make_alias_monitor('choi_op_to_kraus_op', 'choi_op_to_kraus_op/result-aliases-earlier-call')
+
+    def post_choi_to_kraus_h(c, _inner=post_choi_to_kraus, _alias=_alias_choi_op_to_kraus_op):
+        if c.exc is None:
+            _alias(c)
+        _inner(c)
+
+    ctx.attach(Ch, 'choi_op_to_kraus_op', post=post_choi_to_kraus_h, point=P_CH + 'choi_op_to_kraus_op')
 
     def post_super_to_kraus(c):
         if c.exc is not None:
@@ -300,7 +364,14 @@ def install(ctx, numqi, gh):
             return
         _kraus_back(_np(c.result), choi, din, dout, float(zero_eps), 'super_to_kraus', 'super_op_to_kraus_op', rc.super_from_kraus)
 
-    ctx.attach(Ch, 'super_op_to_kraus_op', post=post_super_to_kraus, point=P_CH + 'super_op_to_kraus_op')
+    _alias_super_op_to_kraus_op = make_alias_monitor('super_op_to_kraus_op', 'super_op_to_kraus_op/result-aliases-earlier-call')
+
+    def post_super_to_kraus_h(c, _inner=post_super_to_kraus, _alias=_alias_super_op_to_kraus_op):
+        if c.exc is None:
+            _alias(c)
+        _inner(c)
+
+    ctx.attach(Ch, 'super_op_to_kraus_op', post=post_super_to_kraus_h, point=P_CH + 'super_op_to_kraus_op')
 
     # ------------------------------------------------------------ apply
     def _torch_type(c, key):
@@ -323,7 +394,14 @@ def install(ctx, numqi, gh):
             ctx.check(ok, 'apply_kraus/output-not-a-state', 'a trace-preserving Kraus family maps a density matrix to a non-state',
                       {'kraus': op, 'rho': rho, 'out': out})
 
-    ctx.attach(Ch, 'apply_kraus_op', post=post_apply_kraus, point=P_CH + 'apply_kraus_op')
+    _alias_apply_kraus_op = make_alias_monitor('apply_kraus_op', 'apply_kraus_op/result-aliases-earlier-call')
+
+    def post_apply_kraus_h(c, _inner=post_apply_kraus, _alias=_alias_apply_kraus_op):
+        if c.exc is None:
+            _alias(c)
+        _inner(c)
+
+    ctx.attach(Ch, 'apply_kraus_op', post=post_apply_kraus_h, point=P_CH + 'apply_kraus_op')
 
     def post_apply_choi(c):
         if c.exc is not None:
@@ -338,7 +416,14 @@ def install(ctx, numqi, gh):
             'apply_choi_op differs from sum_ij rho[i,j] C[i,:,j,:] (documented (in,out,in,out) order)', {'choi': op, 'rho': rho})
         _torch_type(c, 'apply_choi')
 
-    ctx.attach(Ch, 'apply_choi_op', post=post_apply_choi, point=P_CH + 'apply_choi_op')
+    _alias_apply_choi_op = make_alias_monitor('apply_choi_op', 'apply_choi_op/result-aliases-earlier-call')
+
+    def post_apply_choi_h(c, _inner=post_apply_choi, _alias=_alias_apply_choi_op):
+        if c.exc is None:
+            _alias(c)
+        _inner(c)
+
+    ctx.attach(Ch, 'apply_choi_op', post=post_apply_choi_h, point=P_CH + 'apply_choi_op')
 
     def post_apply_super(c):
         if c.exc is not None:
@@ -351,7 +436,14 @@ def install(ctx, numqi, gh):
             'apply_super_op differs from out[a,b] = sum_ij S[(a,b),(i,j)] rho[i,j]', {'super': op, 'rho': rho})
         _torch_type(c, 'apply_super')
 
-    ctx.attach(Ch, 'apply_super_op', post=post_apply_super, point=P_CH + 'apply_super_op')
+    _alias_apply_super_op = make_alias_monitor('apply_super_op', 'apply_super_op/result-aliases-earlier-call')
+
+    def post_apply_super_h(c, _inner=post_apply_super, _alias=_alias_apply_super_op):
+        if c.exc is None:
+            _alias(c)
+        _inner(c)
+
+    ctx.attach(Ch, 'apply_super_op', post=post_apply_super_h, point=P_CH + 'apply_super_op')
 
     # ------------------------------------------------------------ Bloch picture
     def post_bloch_map(c):
@@ -380,7 +472,14 @@ def install(ctx, numqi, gh):
         cmp(matA, aref.real, TOL * _scale(aref), 'bloch_map/matA', 'matA differs from A[m,n] = Tr(G_m E(G_n))/2 (explicit basis expansion)', w)
         cmp(vecb, bref.real, TOL * _scale(bref), 'bloch_map/vecb', 'vecb differs from b[m] = Tr(G_m E(I/d_in))/2 (explicit basis expansion)', w)
 
-    ctx.attach(Ch, 'choi_op_to_bloch_map', post=post_bloch_map, point=P_CH + 'choi_op_to_bloch_map')
+    _alias_choi_op_to_bloch_map = make_alias_monitor('choi_op_to_bloch_map', 'choi_op_to_bloch_map/result-aliases-earlier-call')
+
+    def post_bloch_map_h(c, _inner=post_bloch_map, _alias=_alias_choi_op_to_bloch_map):
+        if c.exc is None:
+            _alias(c)
+        _inner(c)
+
+    ctx.attach(Ch, 'choi_op_to_bloch_map', post=post_bloch_map_h, point=P_CH + 'choi_op_to_bloch_map')
 
     def post_matrix_to_gm(c):
         if c.exc is not None:
@@ -434,15 +533,19 @@ def install(ctx, numqi, gh):
 
     # ------------------------------------------------------------ built-in noise channels
     def make_post_noise(name):
+        alias = make_alias_monitor(f'hf_{name}_kraus_op', 'hf_kraus_op/result-aliases-earlier-call')
+
         def post(c):
             rate = c.arg(0, 'noise_rate')
+            if c.exc is None:
+                alias(c, point='noise/history')
             try:
                 admissible = 0 <= float(rate) <= 1
             except Exception:
                 return
             if not admissible:
                 return
-            w = {'channel': name, 'rate': float(rate)}
+            w = {'channel': name, 'rate': float(rate), 'rate_type': type(rate).__name__}
             if c.exc is not None:
                 ctx.check(False, f'noise/{name}/raises/{type(c.exc).__name__}', f'{name} raises for a rate in [0,1]',
                           {**w, 'exception': repr(c.exc)[:300]}, point='noise/cptp')
@@ -854,6 +957,44 @@ RENYI_ALPHAS = (0.5, 2, 0.1, 2.5, 0.9, 3, 1.5, 10.0)
 RELENT_KINDS = ('full/full', 'low-rank/full', 'full/low-rank', 'identical', 'nearby', 'pure/full')
 
 
+def _edit_in_place(rng, arr):
+    """what a caller may legitimately do with an array it was handed: scale / zero / shift / overwrite a block"""
+    how = int(rng.integers(4))
+    if how == 0:
+        arr *= np.sqrt(0.25)
+    elif how == 1:
+        arr[...] = 0
+    elif how == 2:
+        arr += 1
+    else:
+        arr[-1] = arr[0] * 2 + 3
+    return ('scale', 'zero', 'shift', 'overwrite-last-block')[how]
+
+
+def edit_then_recall(ctx, name, fn, make_args, key_prefix=None):
+    """history: r1 = fn(args); the caller edits r1 in place; r2 = fn(equal args). The contracts judge r2 like any call; here r2
+    must in addition equal what r1 was when it was returned (no state shared between calls)."""
+    key_prefix = key_prefix or name
+    args = make_args()
+    r1 = fn(*args)
+    parts1 = [r for r in (r1 if isinstance(r1, tuple) else (r1,)) if isinstance(r, np.ndarray)]
+    if not parts1 or not all(p.flags.writeable and p.size for p in parts1):
+        return None
+    snaps = [p.copy() for p in parts1]
+    how = [_edit_in_place(ctx.rng, p) for p in parts1]
+    args2 = make_args()  # fresh, equal-valued arguments (an edit of r1 that reaches the old arguments through a view is the caller's business)
+    r2 = fn(*args2)
+    parts2 = [r for r in (r2 if isinstance(r2, tuple) else (r2,)) if isinstance(r, np.ndarray)]
+    same = len(parts2) == len(snaps) and all(a.shape == b.shape and np.array_equal(a, b, equal_nan=True) for a, b in zip(parts2, snaps))
+    aliased = len(parts2) == len(parts1) and any(a is b or np.shares_memory(a, b) for a, b in zip(parts2, parts1))
+    key = f'{key_prefix}/result-aliases-earlier-call' if aliased else f'{key_prefix}/second-call-differs-after-editing-first-result'
+    ctx.check(same, key, f'{name}: after the caller edited the first result in place ({"/".join(how)}), a second call with equal arguments '
+              'returns something else than the first call did', lambda: {'function': name, 'edit': how, 'first_result_when_returned': snaps[0],
+                                                                         'second_result': parts2[0] if parts2 else None, 'shares_memory': aliased},
+              point='history/edit-then-recall')
+    return r2
+
+
 def drive_channel(ctx, numqi, gh, kop, family, cplx, n_pairs=8, wl='random'):
     """one channel through every conversion, every apply routine and the functionals."""
     Ch = numqi.channel
@@ -942,6 +1083,22 @@ def drive_channel(ctx, numqi, gh, kop, family, cplx, n_pairs=8, wl='random'):
                 sample = {**desc, 'pair': kind, 'T_in': float(t), 'T_out': rq.trace_distance(ia, ib), 'F_in': float(f), 'F_out': rq.fidelity(ia, ib),
                           'S_in': float(s), 'S_out': rq.relative_entropy(ia, ib) if rq.spectrum(ib).min() >= 1e-6 else 'image not full rank',
                           'choi_rank': int((np.linalg.eigvalsh(ref_choi) > 1e-10).sum())}
+        # histories: call -> the caller edits the returned array in place -> call again with equal arguments
+        ctx.set_case({**desc, 'history': 'edit-then-recall'})
+        k0, c0, s0 = kop.copy(), np.array(choi, copy=True), np.array(sup, copy=True)
+        rho0 = states[0][1].copy()
+        for nm, fn, mk in (('kraus_op_to_choi_op', Ch.kraus_op_to_choi_op, lambda: (k0.copy(),)),
+                           ('kraus_op_to_super_op', Ch.kraus_op_to_super_op, lambda: (k0.copy(),)),
+                           ('choi_op_to_super_op', Ch.choi_op_to_super_op, lambda: (c0.copy(), din)),
+                           ('super_op_to_choi_op', Ch.super_op_to_choi_op, lambda: (s0.copy(),)),
+                           ('choi_op_to_kraus_op', Ch.choi_op_to_kraus_op, lambda: (c0.copy(), din)),
+                           ('super_op_to_kraus_op', Ch.super_op_to_kraus_op, lambda: (s0.copy(),)),
+                           ('choi_op_to_bloch_map', Ch.choi_op_to_bloch_map, lambda: (c0.copy().reshape(din, dout, din, dout),)),
+                           ('apply_kraus_op', Ch.apply_kraus_op, lambda: (k0.copy(), rho0.copy())),
+                           ('apply_choi_op', Ch.apply_choi_op, lambda: (c0.copy(), rho0.copy())),
+                           ('apply_super_op', Ch.apply_super_op, lambda: (s0.copy(), rho0.copy()))):
+            edit_then_recall(ctx, nm, fn, mk)
+        ctx.set_case(desc)
     ex = ctx.extra.setdefault('worst_abs_err', {})
     ex['equiv/all-representations'] = max(ex.get('equiv/all-representations', 0.0), worst_equiv)
     if sample is not None and len(ctx.samples) < 2 and ctx.rng.random() < 0.2:
@@ -1122,6 +1279,26 @@ def run(ctx, shard):
                 kop = fns[nm](rate)
                 if i % 6 == 0 and _drivable(kop):
                     drive_channel(ctx, numqi, gh, kop, f'noise/{nm}', True, n_pairs=4)
+        # histories: call(rate) -> the caller edits the returned Kraus array in place (e.g. `kop *= sqrt(w)` while building a
+        # mixture) -> call again with the same / an equal-valued rate object. The CPTP contract judges every call.
+        import torch
+        hist_rates = [0, 1, 0.5, 0.125, 0.875, 0.3] + [float(x) for x in rng.random(6 if ctx.tier == 'quick' else 60)]
+        for nm, fn in fns.items():
+            for rate in hist_rates:
+                equal_rates = [rate, float(rate), np.float64(rate), np.array(float(rate)), torch.tensor(float(rate), dtype=torch.float64)]
+                if rate in (0, 1):
+                    equal_rates += [int(rate), bool(rate), np.int64(rate)]
+                for again in equal_rates:
+                    ctx.set_case({'noise': nm, 'history': 'edit-then-recall', 'first_rate': repr(rate), 'second_rate': repr(again)})
+                    ctx.case('noise-history', nm, repr(rate), repr(again))
+                    ctx.workload('corner')
+                    with ctx.guard('noise/' + nm):
+                        seq = iter([rate, again])
+                        k2 = edit_then_recall(ctx, f'hf_{nm}_kraus_op', fn, lambda: (next(seq),), key_prefix='hf_kraus_op')
+                        if isinstance(k2, np.ndarray) and _drivable(k2) and again is equal_rates[0] and rate in (0.5, 0.3):
+                            drive_channel(ctx, numqi, gh, k2.copy(), f'noise-history/{nm}', True, n_pairs=4, wl='corner')
+        ctx.sample({'noise-history': 'hf_*_kraus_op(r) -> result edited in place -> hf_*_kraus_op(equal r)',
+                    'rates': [repr(r) for r in hist_rates[:8]], 'equal_rate_objects': ['same object', 'float', 'np.float64', '0-d ndarray', '0-d torch tensor', 'int/bool for 0 and 1']})
         ctx.sample({'noise': 'amplitude_damping', 'rates_driven': [repr(r) for r in RATE_GRID[:8]], 'note': 'every grid rate for the three channels'})
 
     elif name.startswith('functionals'):
